@@ -354,6 +354,16 @@ def run(tier, replay=None):
             for c, ob in zip(oc, oobs):
                 for what, j in ll.opacity_monitor(c, ob):
                     violations.append(("client read path: " + what, {"client_case": c}))
+    if not replay:
+        # the link handshake reply (narwhal_protocol::request) in one piece and cut into segments
+        sh = ll.split_handshake_cases(r, 60 if thorough else 12)
+        sobs, sout = ll.run_client(sh, tag="c10hs")
+        if sobs is None:
+            violations.append(("s2mclient harness crashed or hung on the split handshake: " + sout[-300:], {"cases": sh[:2]}))
+        else:
+            stats["split_handshake_pairs"] = len(sh) // 2
+            for what, c in ll.split_handshake_monitor(sh, sobs):
+                violations.append(("client handshake path: " + what, {"client_case": c}))
     if ok_model and not replay:
         geo_check("geo")
     if (broken or disagreements) and not violations and not replay:
